@@ -9,6 +9,9 @@ import time
 from .common import WORK, VERIF, REPO, REPLAY_DIR, run, log
 
 KANI_CRATE = os.path.join(VERIF, "kani")
+# /repo is always compiled with the verification hooks on (one add-only hook:
+# lexical_util::format::verif_format_error). Constant flags keep the build cache valid.
+HOOK_ENV = {"RUSTFLAGS": "--cfg alexhuszagh_rust_lexical_verif"}
 
 # Build configurations of lexical the harness crate can be compiled under.
 FEATURE_SETS = {
@@ -100,7 +103,7 @@ def run_group(fs, harnesses, tag, timeout_s=600, jobs=8, mem_gb=10, stubbing=Fal
     overall = 900 + math.ceil(len(harnesses) / jobs) * (timeout_s + 30)
     logp = os.path.join(outdir, "kani.log")
     t0 = time.time()
-    rc, out, wall = run(cmd, cwd=KANI_CRATE, timeout=overall, mem_gb=mem_gb, stdout_path=logp)
+    rc, out, wall = run(cmd, cwd=KANI_CRATE, timeout=overall, mem_gb=mem_gb, stdout_path=logp, extra_env=HOOK_ENV)
     results = {h: HarnessResult(h) for h in harnesses}
     info = {"cmd": " ".join(cmd), "rc": rc, "wall_s": wall, "log": logp, "compile_error": False}
     if "error: could not compile" in out or "Failed to execute cargo" in out:
@@ -126,7 +129,7 @@ def run_group(fs, harnesses, tag, timeout_s=600, jobs=8, mem_gb=10, stubbing=Fal
         except Exception as e:  # noqa
             info["json_error"] = str(e)
     if data:
-        stats = {c["harness_id"]: c.get("cbmc_stats", {}) for c in data.get("cbmc", [])}
+        stats = {c["harness_id"]: (c.get("cbmc_stats") or {}) for c in (data.get("cbmc") or []) if c}
         for r in data.get("verification_results", {}).get("results", []):
             h = r["harness_id"]
             if h not in results:
@@ -135,7 +138,7 @@ def run_group(fs, harnesses, tag, timeout_s=600, jobs=8, mem_gb=10, stubbing=Fal
             hr.wall_s = r.get("duration_ms", 0) / 1000.0
             hr.solver_s = float(stats.get(h, {}).get("runtime_solver_s", 0.0) or 0.0)
             st = r.get("status")
-            checks = r.get("checks", [])
+            checks = r.get("checks") or []
             hr.n_checks = len(checks)
             for c in checks:
                 cs = c.get("status")
@@ -187,7 +190,7 @@ def playback(fs, harness, tag, stubbing=False):
     cmd += ["--exact", "--harness", harness, "-Z", "concrete-playback", "--concrete-playback=print"]
     if stubbing:
         cmd += ["-Z", "stubbing"]
-    rc, out, _ = run(cmd, cwd=KANI_CRATE, timeout=3600, mem_gb=16)
+    rc, out, _ = run(cmd, cwd=KANI_CRATE, timeout=3600, mem_gb=16, extra_env=HOOK_ENV)
     tests = re.findall(r"```\n(.*?)```", out, re.S)
     if not tests:
         return None, None, "kani produced no concrete playback test"
@@ -222,7 +225,7 @@ def run_playback_file(rfile):
     if feats:
         cmd += ["--features", ",".join(feats)]
     cmd += ["--", "kani_concrete_playback"]
-    rc, out, _ = run(cmd, cwd=scratch, timeout=1800, extra_env={"CARGO_TARGET_DIR": os.path.join(WORK, "replay-target-" + fs)})
+    rc, out, _ = run(cmd, cwd=scratch, timeout=1800, extra_env=dict(HOOK_ENV, CARGO_TARGET_DIR=os.path.join(WORK, "replay-target-" + fs)))
     shutil.rmtree(scratch, ignore_errors=True)
     if "test result: FAILED" in out or "panicked at" in out:
         return True, out[-3000:]
